@@ -361,3 +361,11 @@ func closePrimes(bits int, gap int64) (*big.Int, *big.Int) {
 	q := nextPrime(new(big.Int).Add(p, big.NewInt(gap)))
 	return p, q
 }
+
+func mustTime(s string) time.Time {
+	t, err := time.Parse("2006-01-02", s)
+	if err != nil {
+		panic(err)
+	}
+	return t
+}
